@@ -99,12 +99,26 @@ type schedReader struct {
 	fault    bool
 	zeros    int
 	finished bool
+	reported bool // the fault has been returned once
 }
 
 func (r *schedReader) Read(p []byte) (int, error) {
+	if r.reported {
+		// A reader is not obliged to repeat its error: once the fault has been
+		// reported, further calls deliver the rest of the data and then io.EOF.
+		// Persistence of the error is the parser's duty ("then that error,
+		// persistently"), so nothing after the fault may reach the caller.
+		if r.pos < len(r.data) {
+			n := copy(p, r.data[r.pos:])
+			r.pos += n
+			return n, nil
+		}
+		return 0, io.EOF
+	}
 	if r.finished || r.pos >= r.limit {
 		r.finished = true
 		if r.fault {
+			r.reported = true
 			return 0, errFault
 		}
 		return 0, io.EOF
@@ -130,6 +144,7 @@ func (r *schedReader) Read(p []byte) (int, error) {
 		// the final data may arrive together with the terminal condition
 		r.finished = true
 		if r.fault {
+			r.reported = true
 			return c, errFault
 		}
 		return c, io.EOF
